@@ -919,7 +919,8 @@ func (ex *Exec) execLoop(lp *loopParts) {
 	ex.pendingLabel = ""
 	lname := fmt.Sprintf("loop%d", ls.n)
 	if ls.lc != nil && ls.lc.Hint != "" && !strings.Contains(noSpace(lp.text), noSpace(ls.lc.Hint)) {
-		ex.drift = append(ex.drift, fmt.Sprintf("%s %s: text hint %q does not match loop %q", ex.name, lname, ls.lc.Hint, lp.text))
+		// the hint documents which loop the clauses were written for; a changed condition is not contract drift
+		ex.warnings[fmt.Sprintf("%s %s: text hint %q differs from the loop condition %q", ex.name, lname, ls.lc.Hint, lp.text)] = true
 	}
 	runIter := func(lf *loopFrame) {
 		c := lp.cond()
@@ -1032,7 +1033,9 @@ func (ex *Exec) execLoop(lp *loopParts) {
 	}
 	v0 := variant()
 	if v0 == nil && ex.curContract() != nil && ex.curContract().Terminates && ex.quiet == 0 {
-		ex.errorf("loop %d has no decreases clause but function claims termination", ls.n)
+		// termination is claimed but no variant is known for this loop: an undischargeable obligation
+		ex.curPos = lp.pos
+		ex.assert("T", lname+"-no-variant", False)
 	}
 	head := ex.st.clone()
 	// 4. one arbitrary iteration
@@ -1084,6 +1087,34 @@ func (ex *Exec) execFor(s *ast.ForStmt) {
 	}
 	if s.Post != nil {
 		lp.post = func() { ex.execStmt(s.Post) }
+	}
+	// default variant for "for ...; i < X; i++" / "i += c": X - i
+	if be, ok := ast.Unparen(s.Cond).(*ast.BinaryExpr); ok && s.Cond != nil && (be.Op == token.LSS || be.Op == token.LEQ) && s.Post != nil {
+		if id, ok := ast.Unparen(be.X).(*ast.Ident); ok {
+			incr := false
+			switch p := s.Post.(type) {
+			case *ast.IncDecStmt:
+				if pid, ok := p.X.(*ast.Ident); ok && pid.Name == id.Name && p.Tok == token.INC {
+					incr = true
+				}
+			case *ast.AssignStmt:
+				if pid, ok := p.Lhs[0].(*ast.Ident); ok && pid.Name == id.Name && p.Tok == token.ADD_ASSIGN {
+					if c, ok := ex.constInt(p.Rhs[0]); ok && c > 0 {
+						incr = true
+					}
+				}
+			}
+			if incr {
+				lp.autoVar = func() *T {
+					saved := ex.quiet
+					ex.quiet++
+					a := ex.eval(be.X)
+					b := ex.eval(be.Y)
+					ex.quiet = saved
+					return Add(Sub(b.T, a.T), I(1))
+				}
+			}
+		}
 	}
 	// default variant for "for !x.Empty()"
 	if u, ok := ast.Unparen(s.Cond).(*ast.UnaryExpr); ok && s.Cond != nil && u.Op == token.NOT {
